@@ -382,12 +382,6 @@ func (r *Reconciler) Reconcile(ctx context.Context, req reconcile.Request) (reco
 			maxRevision = revisionNum
 		}
 
-		// Set oldest revision to the lowest numbered revision and
-		// record its index.
-		if revisionNum < oldestRevision {
-			oldestRevision = revisionNum
-			oldestRevisionIndex = index
-		}
 		// If revision name is same as current revision, then revision
 		// already exists.
 		if rev.GetName() == p.GetCurrentRevision() {
@@ -395,6 +389,14 @@ func (r *Reconciler) Reconcile(ctx context.Context, req reconcile.Request) (reco
 			// Finish iterating through all revisions to make sure
 			// all non-current revisions are inactive.
 			continue
+		}
+		// Set oldest revision to the lowest numbered non-current
+		// revision and record its index. The current revision is never
+		// eligible for garbage collection, even if a rollback made it
+		// the lowest numbered one.
+		if revisionNum < oldestRevision {
+			oldestRevision = revisionNum
+			oldestRevisionIndex = index
 		}
 		if rev.GetDesiredState() == v1.PackageRevisionActive {
 			// If revision is not the current revision, set to
